@@ -41,11 +41,69 @@ def self_attr_root(expr):
     return None
 
 
+def alias_roots(fi):
+    """{local name: self attribute} for locals that alias (part of) a self attribute: every definition of the local is a plain
+    load `self._a`, `self._a[k]`, `self._a[k].x` (no call: a call may build a new object) - or such a local stored INTO the
+    attribute right after being created (`x = []; self._a[k] = x`)."""
+    defs = {}
+    for n in walk_no_nested(fi.node):
+        if isinstance(n, ast.Assign):
+            for t in n.targets:
+                if isinstance(t, ast.Name):
+                    defs.setdefault(t.id, []).append(n.value)
+    out = {}
+    for name, vals in defs.items():
+        roots = set()
+        for v in vals:
+            has_call = any(isinstance(x, ast.Call) for x in ast.walk(v))
+            r = None if has_call else self_attr_root(v)
+            roots.add(r)
+        if len(roots) == 1 and None not in roots:
+            out[name] = roots.pop()
+    # x = <fresh>; self._a[k] = x   ->  x is (now) part of self._a
+    for n in walk_no_nested(fi.node):
+        if isinstance(n, ast.Assign) and isinstance(n.value, ast.Name) and n.value.id in defs and n.value.id not in out:
+            for t in n.targets:
+                r = self_attr_root(t)
+                if r is not None and not is_self_attr(t) and len(defs[n.value.id]) == 1 and is_fresh_expr(defs[n.value.id][0]):
+                    out[n.value.id] = r
+    return out
+
+
+def root_in(fi, expr, aliases=None):
+    """self attribute that ``expr`` is rooted at, looking through aliasing locals of ``fi``."""
+    r = self_attr_root(expr)
+    if r is not None:
+        return r
+    aliases = alias_roots(fi) if aliases is None else aliases
+    e = expr
+    while isinstance(e, (ast.Subscript, ast.Attribute)):
+        e = e.value
+    if isinstance(e, ast.Name) and e.id in aliases:
+        return aliases[e.id]
+    return None
+
+
 def writes_to_self_attr(fi, attr):
-    """Statements/expressions in ``fi`` that write into ``self.<attr>`` (deep):
+    """Statements/expressions in ``fi`` that write into ``self.<attr>`` (deep, also through aliasing locals):
     returns list of (node, kind, target_expr) with kind in
     rebind | substore | subdel | mutcall | augassign."""
     out = []
+    al = {k: v for k, v in alias_roots(fi).items() if v == attr}
+    if al:
+        for n in walk_no_nested(fi.node):
+            if isinstance(n, ast.Assign):
+                for t in n.targets:
+                    if isinstance(t, ast.Subscript) and root_in(fi, t, al) == attr and self_attr_root(t) is None:
+                        out.append((n, "substore", t))
+            elif isinstance(n, ast.AugAssign) and isinstance(n.target, ast.Subscript) and root_in(fi, n.target, al) == attr and self_attr_root(n.target) is None:
+                out.append((n, "substore", n.target))
+            elif isinstance(n, ast.Delete):
+                for t in n.targets:
+                    if isinstance(t, ast.Subscript) and root_in(fi, t, al) == attr and self_attr_root(t) is None:
+                        out.append((n, "subdel", t))
+            elif isinstance(n, ast.Call) and isinstance(n.func, ast.Attribute) and n.func.attr in MUTATORS and self_attr_root(n.func.value) is None and root_in(fi, n.func.value, al) == attr:
+                out.append((n, "mutcall", n.func.value))
     for n in walk_no_nested(fi.node):
         if isinstance(n, ast.Assign):
             for t in n.targets:
